@@ -1039,3 +1039,79 @@ def suite_climate_weights(ctx, GeoGrid, rng, ncases):
                       "directed": directed},
                      f"{cls}.area_weighted_connectivity is not the cos-lat weighted linked area",
                      dict(desc, adjacency=A.tolist(), expected=e, observed=awc))
+
+
+# --------------------------------------------------------------------------
+# replay of a recorded violation:  ./check C12 --replay replays/C12_....json
+# --------------------------------------------------------------------------
+
+def replay(ctx, rp):
+    """Re-evaluate the recorded input on the current working tree with the same
+    oracle; reports the violation again if it still reproduces."""
+    import contextlib
+    import io
+    from pyunicorn.core.grid import Grid
+    from pyunicorn.core.geo_grid import GeoGrid
+    sig, r = rp.get("signature", {}), rp.get("replay", {})
+    kind = sig.get("kind")
+    ctx.rule = "replay of one recorded case"
+    ctx.case(("replay", json_key(r)), True, {"replay": sig})
+    if kind == "angular":
+        g = GeoGrid(np.arange(2), np.array(r["lat"]), np.array(r["lon"]), silence_level=3)
+        D = np.array(g.angular_distance())
+        R = gc_matrix(g.lat_sequence(), g.lon_sequence())
+        for clause, what in ang_violations(D, R):
+            ctx.fail(dict(sig, clause=clause), f"GeoGrid.angular_distance: {what}",
+                     dict(r, observed=D.astype(float).tolist(), closed_form=R.tolist()))
+    elif kind == "euclid":
+        X = np.array(r["space_seq"], dtype=np.float64)
+        g = Grid(np.arange(2), X, silence_level=3)
+        D = np.array(g.euclidean_distance())
+        R = euc_matrix(g._grid["space"])
+        for clause, what in euc_violations(D, R):
+            ctx.fail(dict(sig, clause=clause), f"Grid.euclidean_distance: {what}",
+                     dict(r, observed=D.astype(float).tolist(), closed_form=R.tolist()))
+    elif kind == "lookup" and sig.get("class") == "GeoGrid":
+        g = GeoGrid(np.arange(2), np.array(r["lat"]), np.array(r["lon"]), silence_level=3)
+        got = int(g.node_number(lat_node=r["lat_node"], lon_node=r["lon_node"]))
+        la = [math.radians(float(v)) for v in g.lat_sequence()]
+        lo = [math.radians(float(v)) for v in g.lon_sequence()]
+        dist = [gc_atan2(la[i], lo[i], math.radians(r["lat_node"]), math.radians(r["lon_node"]))
+                for i in range(len(la))]
+        if dist[got] > min(dist) + 2 * ABS_ANG:
+            ctx.fail(sig, f"GeoGrid.node_number returned node {got} at {dist[got]!r}, "
+                     f"nearest at {min(dist)!r}", dict(r, observed=got))
+    elif kind == "weights" and sig.get("class") in ("ClimateNetwork", "CoupledClimateNetwork"):
+        from pyunicorn.climate.climate_network import ClimateNetwork
+        from pyunicorn.climate.coupled_climate_network import CoupledClimateNetwork
+        lat, lon, wt = r["lat"], r["lon"], r["node_weight_type"]
+        sim = np.array(r["similarity"])
+        with contextlib.redirect_stdout(io.StringIO()):
+            if sig["class"] == "ClimateNetwork":
+                g = GeoGrid(np.arange(2), np.array(lat), np.array(lon), silence_level=3)
+                net = ClimateNetwork(g, sim, threshold=0.5, directed=r["directed"],
+                                     node_weight_type=wt, silence_level=3)
+            else:
+                n1 = r["N_1"]
+                g1 = GeoGrid(np.arange(2), np.array(lat[:n1]), np.array(lon[:n1]), silence_level=3)
+                g2 = GeoGrid(np.arange(2), np.array(lat[n1:]), np.array(lon[n1:]), silence_level=3)
+                net = CoupledClimateNetwork(g1, g2, sim, threshold=0.5, directed=r["directed"],
+                                            node_weight_type=wt, silence_level=3)
+            if r.get("after") == "set_threshold":
+                net.set_threshold(0.25)
+            elif r.get("after") == "set_link_density":
+                net.set_link_density(0.5)
+        cosl = [math.cos(math.radians(f32(v))) for v in lat]
+        exp = {"surface": cosl, "irrigation": [v * v for v in cosl], None: [1.0] * len(lat)}[wt]
+        w = net.node_weights
+        if w is None or any(abs(float(w[i]) - exp[i]) > TOL_W for i in range(len(lat))):
+            ctx.fail(sig, f"{sig['class']}.node_weights are not the cos-lat weights",
+                     dict(r, expected=exp, observed=None if w is None else [float(v) for v in w]))
+    else:
+        print(f"[C12] no replay routine for signature {sig}; run ./check C12 with the same "
+              "VERIF_SEED to regenerate the case")
+
+
+def json_key(o):
+    import json
+    return json.dumps(o, sort_keys=True, default=str)[:2000]
